@@ -142,3 +142,10 @@ package generator
 // the first output of a file is compared with the zero value (no source map): the file name then differs
 //@   requires updated.SourceMap != nil && implies(previous.SourceMap == nil, previous.Options.FileName != updated.Options.FileName)
 //@   ensures implies(!result, uf("skeleton", previous) == uf("skeleton", updated))
+// what the comparison does look at is compared exactly: "no recompilation" is only answered when the options, the
+// number of literals and every Go expression text (byte for byte - white space inside a Go string literal is code)
+// are the same
+//@   ensures implies(!result, previous.Options.Version == updated.Options.Version && previous.Options.FileName == updated.Options.FileName && previous.Options.SkipCodeGeneratedComment == updated.Options.SkipCodeGeneratedComment)
+//@   ensures implies(!result, len(previous.Literals) == len(updated.Literals) && len(previous.SourceMap.Expressions) == len(updated.SourceMap.Expressions))
+//@   ensures implies(!result, forall(i, 0, len(updated.SourceMap.Expressions), previous.SourceMap.Expressions[i] == updated.SourceMap.Expressions[i]))
+//@   loop 1 invariant forall(k, 0, i, previous.SourceMap.Expressions[k] == updated.SourceMap.Expressions[k])
